@@ -403,7 +403,10 @@ def body_extract(ctx, nreq, policy, conv, blank=False):
     t = xarray.DataArray(numpy.array(['2020-01-01T00', '2020-01-02T00'], dtype='datetime64[ns]'), dims=['t'])
     if conv == 'cf1d':
         ds = builders.cf1d(2, 2, data_vars={'temp': (('t', 'y', 'x'), numpy.arange(8.0).reshape(2, 2, 2) + 0.5),
-                                            'count': (('y', 'x'), numpy.arange(4, dtype='int32').reshape(2, 2))}).assign_coords(time=t)
+                                            'count': (('y', 'x'), numpy.arange(4, dtype='int32').reshape(2, 2)),
+                                            'packed': (('y', 'x'), numpy.array([[1.0, 2.0], [3.0, 4.0]]))}).assign_coords(time=t)
+        # stored as scaled integers whose fill value is 0
+        ds['packed'].encoding.update(dtype='int16', _FillValue=numpy.int16(0), scale_factor=0.5)
     else:
         ds = builders.ugrid('tqp', fill='nan', data_vars={'temp': (('t', 'nface'), numpy.arange(6.0).reshape(2, 3) + 0.5)}).assign_coords(time=t)
     polygons = ds.ems.polygons
@@ -677,8 +680,14 @@ def cli_equivalence(tier):
             text = json.dumps(shapely.geometry.mapping(geom))
             with open(region, 'w') as f:
                 f.write(text)
-            for form, arg in (('string', text), ('file', region)):
-                got = cu.geometry_argument(arg)
+            pretty = json.dumps(shapely.geometry.mapping(geom), indent=2)
+            for form, arg in (('string', text), ('file', region), ('string with leading blank', ' ' + text),
+                              ('pretty-printed string', '\n' + pretty + '\n')):
+                try:
+                    got = cu.geometry_argument(arg)
+                except Exception as e:
+                    V(f'cli:geojson:{kind}:{form}', 'a GeoJSON argument denotes exactly that geometry', f'refused: {type(e).__name__}: {e}', dict(kind=kind, form=form))
+                    continue
                 if got.geom_type != geom.geom_type or got.is_empty != geom.is_empty or not got.equals(geom):
                     V(f'cli:geojson:{kind}:{form}', 'a GeoJSON argument denotes exactly that geometry',
                       f'{geom.wkt[:200]} parsed as {got.wkt[:200]}', dict(kind=kind, form=form))
